@@ -329,6 +329,21 @@ def bounded(ctx):
     ctx.done(exhaustive=False,
              note=("failing sequences per signature: %r" % (seen,)) if seen else ("%d of %d run" % (done, count) if done < count else ""))
     _bounded_shared(ctx)
+    # the dispatcher as the application uses it: a listener registered late takes part in the next dispatch that a command
+    # makes (the scenario is shared with C04)
+    from .C04_bounded import late_listener_cases
+    ctx.check("late_listeners_through_commands",
+              "pre-handle listeners (pass / handle / raise) registered on the application's dispatcher after the application was "
+              "built and, in half of the cases, after a first run: the next run dispatches to them")
+    seen = {}
+    for when, kind, fails in late_listener_cases():
+        ctx.case([when, kind], nontrivial=True)
+        for sg, what in fails:
+            k = seen.get(sg, 0)
+            seen[sg] = k + 1
+            if k < _PER_SIG:
+                ctx.fail(sg, "%s / %s: %s" % (when, kind, what), witness={"late_listener": when, "kind": kind})
+    ctx.done(exhaustive=True, note=("failing cases per signature: %r" % (seen,)) if seen else "")
 
 
 # ----------------------------------------------------------------------------- the same callable registered repeatedly
@@ -439,6 +454,12 @@ def _bounded_shared(ctx):
 
 def replay_bounded(check_id, failure):
     w = failure.get("witness") or {}
+    if w.get("late_listener"):
+        from .C04_bounded import late_listener_cases
+        for when, kind, fails in late_listener_cases():
+            if when == w["late_listener"] and kind == w["kind"]:
+                return {"fails": bool(fails), "detail": "; ".join("%s: %s" % f for f in fails) or "behaves as specified"}
+        return {"fails": False, "detail": "no such case"}
     if w.get("shared_ops"):
         f = run_shared(tuple(tuple(o) for o in w["shared_ops"]))
         if f is None:
